@@ -477,7 +477,7 @@ def replay(path):
 
         return _e1props.replay("C19", path,
                                extra_factory=["vf.checks.c19.ClosedLoopMonitor"])
-    return generic_replay("C19", path, confirm_job, extra=("quick", 0))
+    return generic_replay("C19", path, confirm_job, extra=("quick", 0), item_job=job)
 
 
 # ------------------------------------------------------------------ closed loop (E1)
